@@ -32,7 +32,7 @@ class Unit(dict):
     cbmc [..extra flags], timeout s, mem_gb, bound (text, for B), tiers (..),
     functions [.. under contract], key [regex the obligation list must contain],
     min_obl int, replay {prog:.., args:..}, restrict_fp [(callsite, target)],
-    solver, config (alternative config header), no_dfcc bool, no_canary bool, mem_est (expected peak GB, for admission)
+    solver, config (alternative config header), no_dfcc bool, no_canary bool, mem_est (expected peak GB, for admission), groups [regex over obligation names] (with split: one query per matching obligation + one for all others)
     """
     def __getattr__(self, k):
         return self.get(k)
@@ -315,19 +315,32 @@ def run_unit(u, wd, tier):
             r["status"] = "undecided"
             r["reason"] = "could not list the obligations for a split run"
             return r
-        def one(nm):
-            return nm, run(cbmc_cmd(u, gb, ["--property", nm]), u.timeout, u.mem_gb)
+        # batches: one obligation each, or (u.groups = [regex, ...]) one query for each obligation whose name matches a regex and ONE
+        # query for all the others - each semantic obligation and the few hundred pointer checks take seconds, all at once minutes
+        if u.groups:
+            single, rest = [], []
+            for nm in names:
+                (single if any(re.search(g, nm or "") for g in u.groups) else rest).append(nm)
+            batches = [[nm] for nm in single] + ([rest] if rest else [])
+        else:
+            batches = [[nm] for nm in names]
+
+        def one(batch):
+            flags = []
+            for nm in batch:
+                flags += ["--property", nm]
+            return batch, run(cbmc_cmd(u, gb, flags), u.timeout, u.mem_gb)
         merged = {"results": [], "messages": [], "status": None}
         with ThreadPoolExecutor(max_workers=int(u.split) if int(u.split) > 1 else 4) as ex2:
-            for nm, (rc2, out2, err2, t2) in ex2.map(one, names):
+            for batch, (rc2, out2, err2, t2) in ex2.map(one, batches):
                 if rc2 == -999:
-                    split_timeouts.append(nm)
+                    split_timeouts += batch[:3]
                     continue
                 p2 = parse_cbmc_json(out2)
                 if p2 is None:
-                    split_timeouts.append(nm)
+                    split_timeouts += batch[:3]
                     continue
-                merged["results"] += [x for x in p2["results"] if x.get("property") == nm]
+                merged["results"] += [x for x in p2["results"] if x.get("property") in batch]
                 merged["messages"] += p2["messages"]
         parsed = merged
         rc, out, err = 0, "", ""
